@@ -63,8 +63,12 @@ if var == 'split' and ss.GENROU.n > 0:
     ss.add('GENROU', row)
 elif var == 'offline' and ss.TGOV1.n > 0:
     ss.TGOV1.u.v[-1] = 0
-elif var == 'offline_exc' and ss.EXDC2.n > 0:
-    ss.EXDC2.u.v[0] = 0
+elif var == 'offline_exc':
+    # the first device of every exciter model of the case is out of service while its generator stays online
+    # (explicitly and iteratively initialised exciter types alike)
+    for mdl in ss.groups['Exciter'].models.values():
+        if mdl.n > 0:
+            mdl.u.v[0] = 0
 elif var == 'unit_off':
     # one unit completely out of service in the data: static generator, the machine that replaces it, its governor
     g = ss.PV.idx.v[0]
@@ -104,6 +108,14 @@ elif var == 'zipmix':
     c_ = ss.PQ.config
     c_.p2p, c_.p2i, c_.p2z = 0.3, 0.4, 0.3
     c_.q2q, c_.q2i, c_.q2z = 0.2, 0.5, 0.3
+elif var in ('underexcited', 'sat_active') and ss.GENROU.n > 0:
+    # a round-rotor machine WITH saturation data whose sub-transient flux lies below ('underexcited') / above
+    # ('sat_active') the saturation threshold SAT_A: the terminal voltage set-point of its static generator is lowered
+    g = ss.GENROU.gen.v[0]
+    for sg in (ss.PV, ss.Slack):
+        if g in sg.idx.v:
+            sg.v0.v[sg.idx.v.index(g)] = 0.85 if var == 'underexcited' else 0.95
+    ss.GENROU.S10.v[0] = 0.1; ss.GENROU.S12.v[0] = 0.5
 elif var == 'corrupt' and ss.TGOV1.n > 0:
     for i in range(len(ss.TGOV1.VMAX.v)):
         ss.TGOV1.VMAX.v[i] = 0.1
@@ -126,6 +138,8 @@ if pf:
         print(json.dumps({'error': 'TDS.init: ' + repr(e)[:200], 'pf': True})); sys.exit(0)
     fg = ss.dae.fg.copy()
     fgc = fg.copy()
+    if var in ('underexcited', 'sat_active') and ss.GENROU.n > 0:
+        out['flux_minus_threshold'] = float(ss.GENROU.psi20_abs.v[0] - ss.GENROU.SAT_A.v[0])
     # devices whose input is a recorded time series drive the system: a run with them is not an undisturbed run
     out['driven'] = sorted(n for n in ('PLBVFU1', 'TimeSeries') if n in ss.models and ss.models[n].n > 0)
     out.update(n=int(ss.dae.n), m=int(ss.dae.m), test_ok=ss.TDS.test_ok, maxfg=float(np.nanmax(np.abs(fg))) if len(fg) else 0.0,
@@ -169,10 +183,12 @@ def run(ctx):
         files = keep + rest[:9]
     specs = [{'file': os.path.abspath(f)} for f in files]
     base = os.path.abspath(os.path.join(root, 'kundur', 'kundur_full.xlsx'))
-    for v in ('split', 'offline', 'offline_exc', 'corrupt', 'zipmix'):
+    for v in ('split', 'offline', 'offline_exc', 'corrupt', 'zipmix', 'underexcited', 'sat_active'):
         specs.append({'file': base, 'variant': v})
     specs.append({'file': os.path.abspath(os.path.join(root, 'ieee14', 'ieee14_full.xlsx')), 'variant': 'split'})
     specs.append({'file': os.path.abspath(os.path.join(root, 'ieee14', 'ieee14_wt3n.xlsx')), 'variant': 'split_pq'})
+    for f in ('ieee14_exac1.xlsx', 'ieee14_esac1a.xlsx', 'ieee14_ac8b.xlsx', 'ieee14_esst1a.xlsx'):
+        specs.append({'file': os.path.abspath(os.path.join(root, 'ieee14', f)), 'variant': 'offline_exc', 'run': False})
     pjm = os.path.abspath(os.path.join(root, '5bus', 'pjm5bus.xlsx'))
     specs.append({'file': pjm, 'variant': 'unit_off'})
     specs.append({'file': pjm, 'variant': 'nan_droop'})
@@ -191,6 +207,8 @@ def run(ctx):
             ctx.count('pflow_not_converged')
             continue
         ctx.count('cases_initialised')
+        if 'flux_minus_threshold' in r:
+            ctx.count('saturating_machine_flux_%s_threshold' % ('below' if r['flux_minus_threshold'] < 0 else 'above'))
         small = (not r['nan']) and r['maxfg'] < r['tol']
         # the verdict must agree with the residuals (independent evaluation of the same vector)
         if r['test_ok'] is True and not small:
